@@ -243,6 +243,10 @@ def check_wrap(case, ctx):
         want = ['%s:%s' % (k, v) for k, v in obj.items()]
     L, M = case['line_len'], case['max_line_len']
     out = obj_to_cti(obj, line_len=L, max_line_len=M)
+    # documented defaults: 80 characters for both widths
+    if obj_to_cti(obj) != obj_to_cti(obj, line_len=80, max_line_len=80) or \
+            obj_to_cti(obj, line_len=L) != obj_to_cti(obj, line_len=L, max_line_len=80):
+        ctx.fail('C18.wrap/default-widths', 'omitting a width is not the same as passing the documented 80')
     lines = out.split('\n')
     ctx.nontrivial(len(lines) >= 3)
     ctx.label('lines:%s' % ('1' if len(lines) == 1 else '2' if len(lines) == 2 else '3+'))
